@@ -695,6 +695,13 @@ class RefPeer:
 
     def send_kexinit(self, cookie: Optional[bytes] = None) -> None:
         kex = list(self.kex_offer)
+        guess = getattr(self, 'guess', None) if not self.first_kex_done \
+            else None
+
+        if guess:
+            # RFC 4253 7: this peer guesses `guess` (put first in its list)
+            # and announces that the first packet of that method follows
+            kex = [guess] + [k for k in kex if k != guess]
 
         if not self.first_kex_done:
             if self.ext_offer:
@@ -707,11 +714,17 @@ class RefPeer:
             namelist(self.enc_cs) + namelist(self.enc_sc) + \
             namelist(self.mac_cs) + namelist(self.mac_sc) + \
             namelist(self.comp_cs) + namelist(self.comp_sc) + \
-            namelist([]) + namelist([]) + boolean(False) + u32(0)
+            namelist([]) + namelist([]) + boolean(bool(guess)) + u32(0)
         self.my_kexinit = payload
         self.kexinit_sent = True
         self.sent_kexinit_at = len(self.packets)
         self.send(payload)
+
+        if guess:
+            # the guessed first packet (KEXDH_INIT of a DH group method);
+            # a peer that negotiates something else has to ignore it
+            self.send(getattr(self, 'guess_packet', None) or
+                      byte(30) + mpint(0x1234567))
 
         if self.peer_kexinit is not None:
             self._begin_kex()
